@@ -322,7 +322,7 @@ Section ProvB.
     { destruct (gd_path g) as [pp|]; cbn [opt_ok] in Hp; ti. }
     cbv zeta. destruct (gd_ident g) as [m|ts]; [|apply RR_panic].
     destruct (is_intoish (c_kind c)).
-    - destruct m as [ident|n]; cbn [member_ok] in Hi; apply RR_ok; ti.
+    - destruct (c_post_init c); [apply RR_ok; ti|]. destruct m as [ident|n]; cbn [member_ok] in Hi; apply RR_ok; ti.
     - destruct (is_into_existing (c_kind c)); [|apply RR_panic]. apply RR_ok. ti.
   Qed.
 
